@@ -1,4 +1,5 @@
 import TongoProofs.Lemmas.Adnl
+import TongoModel.AdnlConstsSpec
 /-! Property C11 — ADNL transport frames and handshake interoperate and detect corruption.
 
 Property theorems only (helper lemmas: `TongoProofs/Lemmas/Adnl.lean`). The model (`TongoModel/Adnl.lean`) is
@@ -240,6 +241,39 @@ theorem corruption_never_delivered_partial (H : Bytes → Bytes) (hH : HLen H) (
       have : (p.hash H).length = 32 := hH _
       simp [hp.1, this]; omega)]
     intro h; cases h
+
+/-! ## the model uses the specification's constants
+
+`TongoModel/AdnlConstsSpec.lean` states the constants of ADNL-over-TCP independently of tongo (with the TL magics
+recomputed as CRC-32 by the kernel); the translator `AdnlConsts` regenerates the literals found in the Go source into
+`TongoGen/AdnlConsts.lean` with `decide`d obligations "code constant = spec constant" on every run. This theorem closes
+the triangle: the hand model slices and bounds with exactly the spec's constants. -/
+
+/-- bytes [r.1, r.2) of `p` -/
+def slice (r : Nat × Nat) (p : Bytes) : Bytes := (p.drop r.1).take (r.2 - r.1)
+
+set_option linter.unusedSimpArgs false in
+theorem model_uses_spec_constants :
+    (∀ p, rxKey p = slice AdnlConstsSpec.rxKey p) ∧ (∀ p, txKey p = slice AdnlConstsSpec.txKey p) ∧
+    (∀ p, rxNonce p = slice AdnlConstsSpec.rxNonce p) ∧ (∀ p, txNonce p = slice AdnlConstsSpec.txNonce p) ∧
+    (∀ p, padding p = slice AdnlConstsSpec.padding p) ∧
+    (∀ sh h, hsKey sh h = slice AdnlConstsSpec.hsKeyFromShared sh ++ slice AdnlConstsSpec.hsKeyFromHash h) ∧
+    (∀ sh h, hsIv sh h = slice AdnlConstsSpec.hsIvFromHash h ++ slice AdnlConstsSpec.hsIvFromShared sh) ∧
+    (∀ ctr p, clientTx ctr p = ctr (slice AdnlConstsSpec.txKey p) (slice AdnlConstsSpec.txNonce p)) ∧
+    (∀ ctr p, clientRx ctr p = ctr (slice AdnlConstsSpec.rxKey p) (slice AdnlConstsSpec.rxNonce p)) ∧
+    (∀ ctr p, serverTx ctr p = clientRx ctr p) ∧ (∀ ctr p, serverRx ctr p = clientTx ctr p) ∧
+    addrMagic = AdnlConstsSpec.keyIdPrefix.map UInt8.ofNat ∧
+    maxLen = AdnlConstsSpec.maxLen ∧ AdnlConstsSpec.minLen = 64 ∧
+    (∀ p : Packet, frameLen p = 4 + AdnlConstsSpec.nonceSize + p.payload.length + AdnlConstsSpec.checksumSize) := by
+  refine ⟨?_, ?_, ?_, ?_, ?_, ?_, ?_, ?_, ?_, ?_, ?_, ?_, ?_, ?_, ?_⟩ <;>
+    first
+    | rfl
+    | (intros; rfl)
+    | (intros; simp [slice, rxKey, txKey, rxNonce, txNonce, padding, hsKey, hsIv, clientTx, clientRx,
+        AdnlConstsSpec.rxKey, AdnlConstsSpec.txKey, AdnlConstsSpec.rxNonce, AdnlConstsSpec.txNonce,
+        AdnlConstsSpec.padding, AdnlConstsSpec.hsKeyFromShared, AdnlConstsSpec.hsKeyFromHash,
+        AdnlConstsSpec.hsIvFromHash, AdnlConstsSpec.hsIvFromShared, frameLen, AdnlConstsSpec.nonceSize,
+        AdnlConstsSpec.checksumSize]; try omega)
 
 /-! ## the hypotheses are satisfiable (non-vacuity) — tests on literals, not proofs of anything general -/
 
